@@ -765,16 +765,24 @@ def hard_check(solver, ms):
     return r
 
 
-def _check(hyps, goal, lem, ms, mbqi=True, seed=0, rlimit=0):
+def is_specfun_def(d):
+    """definitional axiom of a named specification function (as opposed to a computed sequence)"""
+    if not z3.is_quantifier(d) or d.num_patterns() == 0:
+        return z3.is_app(d) and d.num_args() == 2 and z3.is_const(d.arg(0)) and d.arg(0).decl().name().startswith("spec_")
+    pat = d.pattern(0).arg(0)
+    return z3.is_app(pat) and pat.decl().name().startswith("spec_")
+
+
+def _check(hyps, goal, lem, ms, mbqi=True, seed=0, rlimit=0, opaque=False):
     if os.environ.get("KVC_TRACE3"):
         t_ = time.time()
-        r_ = _check0(hyps, goal, lem, ms, mbqi, seed, rlimit)
+        r_ = _check0(hyps, goal, lem, ms, mbqi, seed, rlimit, opaque)
         print("        _check nh=%d nl=%d ms=%d mbqi=%s seed=%s rl=%s -> %s %.2fs" % (len(hyps), len(lem or []), ms, mbqi, seed, rlimit, r_[0], time.time() - t_), flush=True)
         return r_
-    return _check0(hyps, goal, lem, ms, mbqi, seed, rlimit)
+    return _check0(hyps, goal, lem, ms, mbqi, seed, rlimit, opaque)
 
 
-def _check0(hyps, goal, lem, ms, mbqi=True, seed=0, rlimit=0):
+def _check0(hyps, goal, lem, ms, mbqi=True, seed=0, rlimit=0, opaque=False):
     s = z3.Solver()
     s.set("timeout", max(100, int(ms)))
     if rlimit:
@@ -788,8 +796,13 @@ def _check0(hyps, goal, lem, ms, mbqi=True, seed=0, rlimit=0):
     if lem:
         s.add(*lem)
     defs = relevant_defs(list(hyps) + [goal] + list(lem or []))
+    if opaque:
+        defs = [d for d in defs if not is_specfun_def(d)]
     if defs:
         s.add(*defs)
+    if os.environ.get("KVC_DUMP") and os.environ["KVC_DUMP"] in goal.sexpr():
+        _check0.n = getattr(_check0, "n", 0) + 1
+        open("/var/tmp/dump_%d.smt2" % _check0.n, "w").write(s.to_smt2())
     if seed and not mbqi:
         # restart in a fresh z3 context: re-parsing the query renumbers the terms, which (much more than the seed
         # parameter) changes the instantiation order; only the verdict is needed from these attempts
@@ -1047,6 +1060,16 @@ def prove1(hyps2, goal2, budget):
                     return "discharged", time.time() - t0, None, "z3 (products abstracted to an uninterpreted function)"
         except z3.Z3Exception:
             pass
+    if any(is_specfun_def(d) for d in defs):
+        # phase B0: E-matching with the named specification functions kept opaque (congruence and the hints only; their - often
+        # nonlinear - bodies stay folded)
+        defs_ns = [d for d in defs if not is_specfun_def(d)]
+        gi_ns = ground_def_instances(list(hyps2) + [goal2], defs_ns) if defs_ns else []
+        lem_ns = spec_function_lemmas(list(hyps2) + gi_ns, goal2, nonlinear=False) + gi_ns
+        for seed in (0, 1):
+            r, s = _check(hyps2, goal2, lem_ns, 8000, mbqi=False, seed=seed, rlimit=RL, opaque=True)
+            if r == z3.unsat:
+                return "discharged", time.time() - t0, None, "z3 (specification functions opaque)"
     for seed in range(K):
         r, s = _check(hyps2, goal2, lem0, 20000, mbqi=False, seed=seed, rlimit=RL)
         if r == z3.unsat:
